@@ -49,14 +49,16 @@ type Run struct {
 	Res  []bool   // model: reserved flag per seat
 	Ops  []SOp
 	pid  int
-	St   *vlib.Stats
+	// lastD: the seat the button was put on by the last successful Next() (-1: none yet)
+	lastD int
+	St    *vlib.Stats
 	// facts for evidence
 	Facts   map[string]bool
 	Aborted bool
 }
 
 func NewRun(prop string, max int, st *vlib.Stats) *Run {
-	return &Run{Prop: prop, Max: max, M: sm.NewSeatManager(max), Occ: make([]string, max), Res: make([]bool, max), St: st, Facts: map[string]bool{}}
+	return &Run{Prop: prop, Max: max, M: sm.NewSeatManager(max), Occ: make([]string, max), Res: make([]bool, max), St: st, Facts: map[string]bool{}, lastD: -1}
 }
 
 func (r *Run) FreeSeats() []int {
@@ -184,6 +186,10 @@ func (r *Run) Step(op SOp) *vlib.Violation {
 	m := r.M
 	preP := r.playable()
 	preD := seatID(m.Dealer())
+	if preD < 0 && r.lastD >= 0 {
+		preD = r.lastD // a manager that has forgotten where the button was still owes the move from there
+		r.Facts["dealer-forgotten"] = true
+	}
 	q := 0
 	for i := 0; i < r.Max; i++ {
 		if r.Occ[i] != "" && !r.Res[i] {
@@ -368,6 +374,7 @@ func (r *Run) Step(op SOp) *vlib.Violation {
 		r.St.Class("next-ok")
 		P := r.playable()
 		d, s, b := m.Dealer(), m.SmallBlind(), m.BigBlind()
+		r.lastD = seatID(d)
 		// C17: the button moved to the first playable seat after the old dealer
 		if len(preP) >= 2 && preD >= 0 {
 			want := firstAfter(preP, preD, r.Max)
@@ -498,6 +505,7 @@ func (r *Run) Step(op SOp) *vlib.Violation {
 				r.Occ[i], r.Res[i] = "", false
 			}
 			r.Facts["reset"] = true
+			r.lastD = -1
 		}
 	case "restore":
 		// The table is restored from a snapshot of its seats (ApplyStates), the way a
